@@ -240,6 +240,10 @@ def run_case(case, rec):
     if case["pbatch"]:
         free = [k for k in ("theta", "phi") if k not in case["observed"]] or ["other"]
         pb = {free[0]: rng.uniform(0.5, 2.0, (B, 1))}
+        if case["observed"] and case["seed"] % 2:
+            # the parameter batch also carries a key that is observed: for the observation term the observed row wins
+            pb[case["observed"][0]] = rng.uniform(2.5, 3.5, (B, 1))
+            rec.count("obs_key_also_in_param_batch")
         batch = jinns.data.append_param_batch(batch, {k: jnp.asarray(v) for k, v in pb.items()})
     sigp = "observations/%s" % kind[4:]
     attrs = ("/observed-eq-params" if case["observed"] else "") + ("/param-batch" if case["pbatch"] else "")
@@ -259,7 +263,8 @@ def run_case(case, rec):
             eq[k] = float(np.asarray(ob["eq_params"][k])[i, 0])
         if pb is not None:
             for k, v in pb.items():
-                eq[k] = float(v[i, 0])
+                if k not in case["observed"]:
+                    eq[k] = float(v[i, 0])
         full = net.val(bi[i], eq)[a:b]
         sel = full if case["obs_slice"] is None else full[case["obs_slice"][0]:case["obs_slice"][1]]
         rows.append(float(np.sum(np.asarray(wv) * (sel - bv[i]) ** 2)))
